@@ -219,10 +219,35 @@ func runCheck(id, tier string, seed int, overlay map[string][]byte, quiet bool) 
 	SolveAll(s.R, results)
 
 	known := loadKnownFindings()
+	// A finding is keyed by its obligation: function, kind of obligation, callee and lock, and the source
+	// text of the call site after '@'. The text changes when a maintainer renames a local, so a name
+	// that differs only after '@' still matches - provided the function has exactly ONE failed
+	// obligation with that key on this run (a second site of the same kind is a different violation
+	// and both are then reported).
+	siteKey := func(name string) string {
+		if i := strings.Index(name, "]@"); i >= 0 {
+			return name[:i+1]
+		}
+		return name
+	}
+	failedPerKey := map[string]int{}
+	for _, fr := range results {
+		for _, o := range fr.Obligs {
+			if o.Status != "discharged" && o.Kind != "cover" {
+				failedPerKey[siteKey(o.Name)]++
+			}
+		}
+	}
 	isKnown := func(name string) *KnownFinding {
 		for i := range known {
 			k := &known[i]
-			if k.Status == "open" && k.Obligation == name {
+			if k.Status != "open" {
+				continue
+			}
+			if k.Obligation == name {
+				return k
+			}
+			if kk := siteKey(k.Obligation); kk != k.Obligation && kk == siteKey(name) && failedPerKey[kk] == 1 {
 				return k
 			}
 		}
